@@ -1,0 +1,11 @@
+//go:build !verif
+
+package desync
+
+func verifAsm(ev string, worker int, a, b, c uint64, name string) {}
+
+func verifAsmOK(ok bool) uint64 { return 0 }
+
+func verifAsmJob(worker int, segment IndexSegment, source SeedSegment) {}
+
+func verifAsmGet(ok bool, pos []int) {}
